@@ -144,6 +144,11 @@ class YosysBehavioralRTLIRToVVisitorL1( BehavioralRTLIRToVVisitorL1 ):
         return s.visit_expr_wrap( node.value )
       value_str = s.visit( node.value )
       if cur_nbits > nbits:
+        if isinstance( node.value, ( bir.IfExp, bir.UnaryOp, bir.BinOp, bir.Compare ) ):
+          # Verilog-2005 has no size cast and cannot part-select an expression
+          raise VerilogTranslationError( s.blk, node,
+            "the yosys backend cannot truncate an expression; "
+            "assign the expression to a temporary variable first!" )
         msb = nbits-1
         return f"{value_str}[{msb}:0]"
       else:
